@@ -7,10 +7,36 @@ import Tetro.Proofs.C19
 import Tetro.Proofs.C21
 /-
 PROJECTION LAYER, part 2 (continues Proofs/WholeTraces.lean): the remaining component properties on runs of the
-whole machine (`Model/Whole.lean`).
+whole machine (`Model/Whole.lean`).  Same pattern: `whole_X_trace` (one cycle), `whole_X_run` (any run), `cNN_whole`
+(the component theorem instantiated with the induced trace of a machine `gameboy.New` builds); the induced traces
+are derived from `cpuWrites w`, the ghost log of the CPU's bus writes of a cycle (proved faithful in C17Whole).
 
-1. SERIAL (C23).  `whole_serial_trace`, `whole_serial_run` (no hypothesis at all: they hold in every state, running or
-   stopped), `whole_serial_reads`, `c23_whole`.
+1. SERIAL (C23).  `whole_serial_trace`, `whole_serial_run` (NO hypothesis: every state, running or stopped, every
+   number of cycles – the end-of-cycle calls never touch the serial unit, panicking or not), `whole_serial_reads`,
+   `c23_whole_from`, `c23_whole` (for every accepted image and every `n`: the writer's log is exactly the FF01 entries
+   of the ghost write logs of the `n` cycles, in order; no writer: empty; FF01/FF02 read FF).
+2. CARTRIDGE RAM (C09).  `whole_cart_built` (what `gameboy.New` builds is the start state of `c09_refines_*`, per
+   supported type; Lemmas/CartConstruct.lean: `construct_shape`, `mbc1_new_small`, `c09_image`), `c09_whole` (window
+   reads and `DumpRAM` = the abstract RAM model on the induced history), `c09_whole_ram`.
+3. OAM DMA (C16).  `c16_whole_from` (any state), `c16_whole` (reachable states).  Helpers in Lemmas/BoardDma.lean:
+   the engine's view `dview` of the OAM unit, `cpu_dma` (the CPU's part of a cycle), `end_cycle_dma` (the end of a
+   cycle = ONE `TickDMA` whose byte source is the bus read of `Mapper.EndMachineCycle`), `dmaRd_low` (that read is
+   `Board.read` below E000).  `bus` of `C16.c16_copy` is instantiated with the board reads of the run.
+   HYPOTHESIS that cannot be dropped: the OAM-bug window is closed at the start of each cycle of the transfer (LCD
+   off or PPU outside mode 2) – in the model, as in oam.go, the mode-2 corruption of C17 rewrites OAM rows also
+   while a transfer runs, and CPU writes to FE00–FE9F are not blocked (`c16_whole_write_not_blocked`).
+4. APU (C19/C21).  `whole_apu_flip` (a status bit that changes inside a cycle changes at one of the CPU's sound
+   writes of that cycle or in `audio.EndMachineCycle`), `c19_whole_on_only_by_trigger`, `c19_whole_off_causes`,
+   `c19_whole_off_causes_ch2`, `c19_whole_run`, `c21_whole_cycle`.  PARTIAL with respect to C19/C21 as a whole: the
+   length-expiry theorems (`c19_length_exact`, channel-level functions) and the many-cycle closed forms of C21 are
+   not lifted; C21 is stated for one machine cycle (4 clocks) without sound-register writes.
+5. CPU (C01–C05): NOT lifted.  `c01_program_refines` and all instruction-level theorems (C01–C05, Lemmas/Cpu*.lean)
+   are stated for the flat bus `Exec.Flat` (memory = a function, reads pure, nothing changes between cycles); the
+   board's reads have side effects and its I/O registers and IF change at the end of every cycle.  Lifting needs an
+   ISA machine over an abstract bus with an environment step between cycles and the C02–C05 proofs redone over it.
+   The statements that ARE generic over `[Cpu.Bus β]` (`CpuOk.cycle_ok`, `GhostBus.cycle_ghost/cycle_wr_addrs`,
+   `CpuBusInv.cycle_preserves`, `CpuAddr.run_preserves_within`) are already instantiated with `Board` in
+   Proofs/WholeNoCrash.lean (`whole_cpu_ok`) and Proofs/C17Whole.lean (`cpuWrites_faithful`, `cpuWrites_addrs`).
 -/
 namespace Tetro.WholeTraces2
 open Tetro.Model Tetro.Model.Machine Tetro.Model.Whole Tetro.Model.Decoder
